@@ -76,7 +76,7 @@ def responder_worker(analysis: Analysis, spec) -> dict:
                 parse_idx = i if parse_idx is None else parse_idx
             if e.kind == "catch" and e.func.startswith("ota:") and first_mut is None:
                 parse_failed = True
-            if e.kind == "dictpop" and isinstance(e.recv, V):
+            if e.kind in ("dictpop", "delitem", "clear") and isinstance(e.recv, V):
                 nm = store_name(e.recv.key())
                 hit = None
                 pops.append({"store": nm, "key_is_node": bool(e.args) and e.args[0].key() == node.key(), "idx": i})
@@ -115,6 +115,33 @@ def update_worker(analysis: Analysis, ctxspec) -> dict:
         node_known = any(f[0] == "in" and f[1] == nid.key() and render(f[2]).endswith("sensors") for f in s.facts)
         rows.append({"kind": kind, "req": [i for i, _e in req], "req_vals_tuple2": all(isinstance(e.args[1], TupleV) and len(e.args[1].items) == 2 for _i, e in req), "req_key_known": all(any(f[0] == "in" and f[1] == e.args[0].key() and render(f[2]).endswith("sensors") for f in (e.facts or ())) for _i, e in req), "pops": pops, "reboots": [(i, isinstance(e.args[0], Const) and e.args[0].value is True) for i, e in reboots], "fw_known": fw_known, "node_known": node_known, "witness": describe_path(out, 22)})
     return {"ctx": ctx.name, "rows": rows}
+
+
+def update_fw_worker(analysis: Analysis, ctxspec) -> dict:
+    """The controller's update call: what it hands to make_update after loading the firmware file."""
+    ctx = analysis.context(*ctxspec)
+    it = analysis.new_interp(ctx)
+    st, gw = analysis.gateway_state(it)
+    it.inline_skip = {"ota:OTAFirmware.make_update", "ota:load_fw"}
+    tasks = Sym(("attr", gw.key(), "tasks"), ("cls", ctx.tasks))
+    m = analysis.p.find_method(ctx.tasks, "update_fw")
+    if m is None:
+        raise AnalysisError(f"anchor vanished: {ctx.tasks}.update_fw")
+    args = [Sym(("root", "nids"), None), Sym(("root", "a_type"), "int"), Sym(("root", "a_ver"), "int"), Sym(("root", "fw_path"), "str", nullable=True)]
+    outs = analysis.run_root(it, m.qual, args, tasks, st)
+    rows = []
+    for out in outs:
+        kind, s, v = out
+        for e in s.events:
+            if e.kind == "opaque" and e.name == "ota:OTAFirmware.make_update":
+                a = list(e.args[1:]) + [None] * 4
+                img = e.kwargs.get("fw_bin", a[3])
+                loaded = isinstance(img, V) and "ota:load_fw" in repr(img.key())
+                none = img is None or (isinstance(img, Const) and img.value is None)
+                nonempty = isinstance(img, V) and ("truthy", img.key()) in (e.facts or ())
+                ids_ok = [isinstance(x, V) and x.key() == y.key() for x, y in zip(a[:3], args[:3])]
+                rows.append({"loaded": loaded, "none": none, "nonempty": nonempty, "ids_ok": all(ids_ok), "img": repr(img.key())[:80] if isinstance(img, V) else str(img), "path_given": ("truthy", args[3].key()) in (e.facts or ()), "witness": describe_path(out, 16)})
+    return {"qual": m.qual, "ctx": ctx.name, "rows": rows}
 
 
 def reboot_writers(analysis: Analysis, res: RuleResult) -> None:
@@ -170,6 +197,13 @@ def run(analysis: Analysis, tier: str) -> RuleResult:
             res.add("C10-R2", f"{q} / never touches `{sp['never']}`", ok_never, "mysensors/ota.py", "config is withheld once fetching began / no blocks before a config round" if ok_never else f"touches {sp['never']}", r["witness"] if not ok_never else None, context=summ["ctx"])
             ok_move = all(m["store"] == sp["target"] and m["key_is_node"] and m["val_is_popped"] for m in r["moves"]) and len(r["moves"]) <= 1
             res.add("C10-R2", f"{q} / moves the node's entry to `{sp['target']}`", ok_move, "mysensors/ota.py", f"moves {[(m['store']) for m in r['moves']]}", r["witness"] if not ok_move else None, context=summ["ctx"])
+            if r["hit"]:
+                # a request never takes a scheduled node out of its session: the popped entry is stored back
+                # (whatever becomes of the request), and nothing removes it again afterwards
+                last_move = max((m["idx"] for m in r["moves"]), default=None)
+                late = [p["store"] for p in r["pops"] if last_move is not None and p["idx"] > last_move]
+                ok_keep = len(r["moves"]) == 1 and not late
+                res.add("C10-R2", f"{q} / a request never takes a scheduled node out of its session", ok_keep, "mysensors/ota.py", f"popped entry stored back into `{sp['target']}`" if ok_keep else ("the node's entry is popped from a session store and not stored back on this path: one unanswerable request ends the update" if not r["moves"] else f"the node is removed from {late} after being served: a repeated or out-of-order block request goes unanswered"), r["witness"] if not ok_keep else None, context=summ["ctx"])
             if r["replies"]:
                 ok_g = r["hit"] and r["fw_found"] and len(r["moves"]) == 1
                 res.add("C10-R1", f"{q} / a response needs a session entry and a firmware record", ok_g, "mysensors/ota.py", "store hit and firmware found on the replying path" if ok_g else "a firmware response is returned for a node that is not scheduled or without firmware", r["witness"] if not ok_g else None, context=summ["ctx"])
@@ -185,7 +219,7 @@ def run(analysis: Analysis, tier: str) -> RuleResult:
     for summ in common.pmap(analysis, update_worker, [(last, "serial", "sync")]):
         rows = summ["rows"]
         if not any(r["req"] for r in rows):
-            raise AnalysisError("C10-R1: no path of make_update schedules a node")
+            res.add("C10-R1", "ota:OTAFirmware.make_update / schedules known nodes", False, "mysensors/ota.py", "no path of make_update stores a node into `requested`", context=summ["ctx"])
         for r in rows:
             if r["kind"] != "val":
                 continue
@@ -202,6 +236,18 @@ def run(analysis: Analysis, tier: str) -> RuleResult:
                 res.add("C10-R2", "ota:OTAFirmware.make_update / restart: the node is removed from unstarted and started before it is scheduled", ok, "mysensors/ota.py", f"popped before scheduling: {sorted(before)}", r["witness"] if not ok else None, context=summ["ctx"])
                 okb = any(t for _i, t in r["reboots"])
                 res.add("C10-R3", "ota:OTAFirmware.make_update / scheduling sets the reboot flag", okb, "mysensors/ota.py", "sensors[node].reboot = True", r["witness"] if not okb else None, context=summ["ctx"])
+    # the update call itself: a firmware file that does not load to a non-empty image schedules nothing
+    for summ in common.pmap(analysis, update_fw_worker, [(last, "serial", "sync"), (last, "serial", "async")]):
+        q = summ["qual"]
+        if not summ["rows"]:
+            res.add("C10-R6", f"{q} / reaches make_update", False, "mysensors/task.py", "no path of the update call reaches OTAFirmware.make_update", context=summ["ctx"])
+        for r in summ["rows"]:
+            res.add("C10-R6", f"{q} / passes the caller's node ids, type and version on unchanged", r["ids_ok"], "mysensors/task.py", "make_update(nids, fw_type, fw_ver, ...)", r["witness"] if not r["ids_ok"] else None, context=summ["ctx"])
+            if r["path_given"]:
+                ok = r["loaded"] and r["nonempty"]
+                res.add("C10-R6", f"{q} / with a firmware path, nodes are scheduled only for a loaded, non-empty image", ok, "mysensors/task.py", "make_update is dominated by a truthiness test of load_fw's result" if ok else f"make_update is reached with image {r['img']} that is not known to be a non-empty load_fw result: a missing / invalid / empty firmware file still schedules the nodes (an empty image is padded to a page of 0xFF and served)", r["witness"] if not ok else None, context=summ["ctx"])
+            else:
+                res.add("C10-R6", f"{q} / without a firmware path no image is passed", r["none"], "mysensors/task.py", f"fw_bin = {r['img']}", r["witness"] if not r["none"] else None, context=summ["ctx"])
     # who may store into `requested`
     for mod in common.core_modules(analysis):
         for node in ast.walk(mod.tree):
